@@ -165,7 +165,7 @@ func (lex *Lexer) Lex() *token.Token {
 		goto _out
 	tr1:
 		if lex.data[lex.p] == '\n' {
-			lex.newLines.Append(lex.p + 1)
+			lex.newLines.Append(lex.p) // bad (newline-action): the line starts after the terminator
 		}
 
 		if lex.data[lex.p] == '\r' && lex.p+1 < len(lex.data) && lex.data[lex.p+1] != '\n' {
